@@ -195,7 +195,7 @@ def _api_setup(seed):
     prior = S.default_prior()
     data = S.make_data(6, seed)
     lib = prior.sample(size=12, rng=np.random.default_rng(seed), return_logprobs=True)
-    path = os.path.join(S.OUTDIR, f"c02_lib_{os.getpid()}.hdf5")
+    path = os.path.join(S.OUTDIR, f"c02_lib_{os.getpid()}_{seed}.hdf5")
     if os.path.exists(path):
         os.unlink(path)
     lib.write(path)
